@@ -248,6 +248,14 @@ def case(ctx, case):
             env, O = envzoo.make_other(cfg), None
         torch.manual_seed(seed)
         td = env.generator(batch_size=[B])
+        if case.get("retask"):
+            # the same generator object re-parameterised between epochs, the way the library's own meta-learning callback does
+            # (ReptileCallback._load_task assigns generator.num_loc / generator.capacity): the next batch must follow the NEW values
+            for k_, v_ in case["retask"].items():
+                setattr(env.generator, k_, v_)
+            cfg = dict(cfg, n=case["retask"].get("num_loc", cfg["n"]), **({"capacity": case["retask"]["capacity"]} if "capacity" in case["retask"] else {}), retask=True)
+            td = env.generator(batch_size=[B])
+            ctx.count("c18_retasked_generators")
     except Exception as e:
         ctx.evaluation()
         ctx.violation(sig_of(cfg, predicate="generator_raises", exc=type(e).__name__, gp=str(sorted((case.get("gp") or {}).keys()))), f"generator raised {type(e).__name__}: {str(e)[:200]}", dict(cfg=cfg, gp=case.get("gp")))
